@@ -272,7 +272,7 @@ func runC06(r *Run, rng *Rng, thorough bool) {
 		prot, payload, sig, _ := envelopeParts(tok2)
 		for _, h := range hostile {
 			pre := append([]byte{0xd2, 0x84}, nBstr(prot).Bytes()...)
-			try("hostile-header/envelope-element", 0, append(append([]byte{0xd2, 0x84}, h...)))
+			try("hostile-header/envelope-element", 0, append([]byte{0xd2, 0x84}, h...))
 			try("hostile-header/envelope-element", 0, append(append([]byte{}, pre...), h...))
 			pre2 := append(append([]byte{}, pre...), 0xa0)
 			try("hostile-header/envelope-element", 0, append(append([]byte{}, pre2...), h...))
